@@ -129,7 +129,7 @@ impl Sched {
             rx,
             workers: Vec::new(),
             sink,
-            watchdog: Duration::from_secs(20),
+            watchdog: Duration::from_secs(60),
             thread_ops: 0,
         }
     }
